@@ -5,6 +5,7 @@ import (
 	"encoding/json"
 	"fmt"
 	"math/rand"
+	"reflect"
 	"runtime"
 	"sort"
 	"strings"
@@ -100,7 +101,16 @@ func c17map(r *rand.Rand) map[string]interface{} {
 			return l
 		}
 	}
-	return jv.M{"doc": gen(2 + r.Intn(4))}
+	root := jv.M{"doc": gen(2 + r.Intn(4))}
+	if r.Intn(4) == 0 {
+		// more values than the initial result capacity of the query functions
+		wide := jv.L{}
+		for i, n := 0, 33+r.Intn(40); i < n; i++ {
+			wide = append(wide, jv.M{"id": scalar(), "k": float64(i)})
+		}
+		root["items"] = wide
+	}
+	return root
 }
 
 // mutateContainers changes every container reachable from v in place.
@@ -232,9 +242,14 @@ func c17purity(c *core.Ctx) {
 		mxj.XmlCheckIsValid(r.Intn(2) == 0)
 		mxj.LeafUseDotNotation(r.Intn(2) == 0)
 	}
+	optsBefore := mxj.VerifOptionSnapshot()
 	for _, o := range ops {
 		o.f()
 		if !check(o.name) {
+			return
+		}
+		if now := mxj.VerifOptionSnapshot(); !reflect.DeepEqual(now, optsBefore) {
+			c.Violate("c17-query-changed-options:"+o.name, o.name+" (a read-only operation) changed package-level option state", core.D{"method": o.name, "difference": diffSnap(optsBefore, now), "map": before})
 			return
 		}
 	}
@@ -337,7 +352,9 @@ func c17round(c *core.Ctx) {
 	}
 	pool := []string{"doc", "a", "b", "c", "k", "id", "items", "entry"}
 	mkOp := func() c17op {
-		switch r.Intn(22) {
+		switch r.Intn(23) {
+		case 22:
+			return c17op{"q:ValuesForPath(wide)", func() string { return fpVals(shared.ValuesForPath("items")) + fpVals(shared.ValuesForKey("id")) }}
 		case 0:
 			p := pathString(genPath(r, sharedRoot, pool, false, true))
 			return c17op{"q:ValuesForPath", func() string { return fpVals(shared.ValuesForPath(p)) }}
